@@ -112,8 +112,7 @@ def parseOf (ty : String) (t : Bytes) : Option (Out DV) :=
 
 def tsWhy (t : Int) : String :=
   if !tsPrintable t then "ts-range"
-  else if t % 1000000 ≠ 0 then "ts-subsecond"
-  else if (civilFromDays (Int.tdiv (t - thirtyYearsUs) 1000 / 86400000)).1 < -9999 then "ts-bc-wide-year"
+  else if (civilFromDays ((t - thirtyYearsUs) / 86400000000)).1 = chronoMinYear then "ts-first-year"
   else "?"
 
 /-- why the model expects `parse (display v)` not to return `v` (reason tag → signature) -/
